@@ -19,7 +19,7 @@ LEVEL_TEXT["C14"] = (
 )
 
 PROPS["C14"] = {
-    "gen": ["Cmplx", "SmallFft", "Consts", "Slice", "StepsBase", "StepsTuner", "StepsArray", "StepsSlice", "StepsFir", "StepsDelay"],
+    "gen": ["Cmplx", "SmallFft", "Consts", "Slice", "StepsBase", "StepsTuner", "CtorTuner", "StepsArray", "StepsSlice", "StepsFir", "StepsDelay"],
     "lean_props": ["DspVerif.Props.C14", "DspVerif.Props.C14Total", "DspVerif.Props.C14Gen"],
     "harness": [{"src": "c14.cpp", "cfg": "rel",
                  "tol": {"hilb": (1e-10, 0.0), "hilbg": (1e-10, 0.0), "hilbn": (1e-10, 0.0),
@@ -63,7 +63,7 @@ PROPS["C14"] = {
             "f = k + d with k in {0, +-1, +-7, +-(fs/2 - 1), +-fs/4, +-fs/2 with the offset pointing inwards, 2 random} and d in {+-1 ulp of k, +-1e-12, +-1e-9, +-1e-7, +-5e-7, +-1e-6, "
             "+-1e-5, +-1e-3}, fs in {8, 100, 1000, 8000} (thorough: + 9, 4099, one random rate); quick = a rotating third / fifth / seventeenth of the (k, d) grid per rate (about 150 cases, "
             "every offset class about 10 times), thorough = the full grid; streams of 3..50 fs + ragged tail, and for |d| < 1e-8 at fs <= 1000 as many periods as make a lag of 2 pi d per "
-            "period exceed 5e-8 (up to 25000 fs at fs = 8; sample budget 2e5 / 1e6 per case); framings {one call, random cuts, frames of 0, 1, fs-1, fs, fs+1, random}; inputs of every "
+            "period exceed 5e-8 (up to about 8000 fs at fs = 8; one-ulp offsets excepted; sample budget 2e5 / 1e6 per case); framings {one call, random cuts, frames of 0, 1, fs-1, fs, fs+1, random}; inputs of every "
             "value class; EVERY sample against exp(2 pi i f k/fs) with f k/fs reduced mod 1 in 128-bit integer arithmetic, bound |x| (1e-9 + 4 eps phase); framed run bit-compared with a "
             "one-call run; 18 / 90 cases through CORR (tun); the statistics tuner_near_integer_restart_drift_over_bound_* record by what factor a counter restart would have exceeded the "
             "bound (>= 2.6e5 for |d| >= 1e-9, about 50 for 1e-12; one ulp is below the rounding of the phase itself and is tied by CORR only). One more long stream of this class "
